@@ -120,7 +120,7 @@ TESTS = ('t-test', 'bootstrap', 'ranksum')
 
 def run_tests(r, test_type, with_all=True):
     """the three p-value arrays of a Result, or the exception each accessor raised"""
-    out = {}
+    out = {'_ndim': int(np.ndim(r.evaluations))}
     with warnings.catch_warnings(), np.errstate(all='ignore'):
         warnings.simplefilter('ignore')
         for name, f in (('pair', r.test_pairwise), ('zero', r.test_zero), ('noise', r.test_noise)):
@@ -142,6 +142,10 @@ def relational(findings, tests, test_type, case, identical_pairs=()):
     """range, symmetry, unit diagonal; test_all agrees with the single accessors"""
     for name in ('pair', 'zero', 'noise'):
         p = tests[name]
+        if isinstance(p, Exception) and test_type == 'bootstrap' and name == 'noise' and tests.get('_ndim', 2) > 2:
+            # evaluation arrays with fold / repetition axes come with per-repetition ceilings in the library's own
+            # evaluators; the synthetic pairing (folds x 2-by-N ceiling) is not an input the property speaks about
+            continue
         if isinstance(p, Exception):
             findings.append((f'C06/d/raises/{test_type}/{name}/{type(p).__name__}',
                              f'test_{name}({test_type!r}) raises {type(p).__name__}: {str(p)[:120]}', case))
